@@ -201,7 +201,7 @@ void oracle_c02(Plan const& p, RunCtl const& ctl, std::vector<u64> const& seg_ca
             in_domain(p.nt, (rv.sum / N) * (rv.sum / N) / N))
         {
             ld const E = rv.sum / N;
-            if (!(std::fabs(rv.value - E) <= 4 * eps * std::fabs(E)))
+            if (!(std::fabs(rv.value - E) <= 4 * eps * std::fabs(E) + 2 * denorm_of(p.nt)))
             {
                 rep.fail("C02", "value", key, fmt("iteration %llu: value=%.21Lg sum/N=%.21Lg",
                     (unsigned long long) k, rv.value, E));
@@ -212,7 +212,8 @@ void oracle_c02(Plan const& p, RunCtl const& ctl, std::vector<u64> const& seg_ca
                 ld const a = rv.sumsq / N, b = E * E;
                 ld const var = (a - b) / (N - 1);
                 ld const scale = (a + b) / (N - 1);
-                if (!(std::fabs(rv.variance - var) <= 16 * eps * scale))
+                // (operands that underflow leave an absolute error of a few smallest subnormals)
+                if (!(std::fabs(rv.variance - var) <= 16 * eps * scale + 8 * denorm_of(p.nt)))
                 {
                     rep.fail("C02", "variance", key, fmt("iteration %llu: variance=%.21Lg reference=%.21Lg",
                         (unsigned long long) k, rv.variance, var));
